@@ -105,7 +105,7 @@ CHECKS["C08"] = dict(
     engine="XH+PYRE",
     technique="symbolic execution (CrossHair + z3): solver-driven exhaustive exploration of file-body shapes through the real header placement code and add_header_to_file, judged by a reference decomposition",
     text="For every comment style x {single, multi}, in replacing and --no-replace mode, and every body of 2 items (3 for eight representative styles; thorough 3/4) drawn from {blank, white space, code, indented code, own-style comment, foreign comment, an existing tool-written REUSE header (also with trailing blanks), shebang-like first line, a shebang-like line further down, absent} with and without final newline, CrossHair confirms that the output's non-blank lines are the input's, in order, with exactly ONE header block of the file's style inserted and at most the first REUSE comment block (minus shebang lines) removed, that the text before the header is unchanged (leading blank lines, indentation), that shebang lines stay first and that the final newline is kept. At file level (add_header_to_file over an in-memory open) it confirms for LF/CRLF/CR x BOM x final newline that one line-ending convention is kept and that the file result equals the text-level result.",
-    note="After the solver fixes a body shape the text is concrete (patterns then run in the real re); the solver contributes exhaustive shape exploration. Known finding: a leading byte order mark does not stay first. Outside: mixed line endings, longer bodies.",
+    note="After the solver fixes a body shape the text is concrete (patterns then run in the real re); the solver contributes exhaustive shape exploration. The defect this check found (a leading byte order mark did not stay first) is repaired in /repo (fix: commit); no carve-out remains. Outside: mixed line endings, longer bodies.",
 )
 CHECKS["C09"] = dict(
     engine="XH+PYRE",
